@@ -162,6 +162,11 @@ class Exec:
             y = self.ev(n.orelse, st, spec, b)
         finally:
             self.cx.guards.pop()
+        # `x if x is not None else d`: in the branch guarded by "x is not None" the optional value is its value
+        if isinstance(x, Opt) and z3.eq(z3.simplify(c), z3.simplify(z3.Not(x.none))):
+            x = x.val
+        if isinstance(y, Opt) and z3.eq(z3.simplify(z3.Not(c)), z3.simplify(z3.Not(y.none))):
+            y = y.val
         return merge_val(c, x, y)
 
     def e_BoolOp(self, n, st, spec, b):
@@ -211,6 +216,12 @@ class Exec:
             l = l.val if spec else self.need_not_none(l, st, node)
         if isinstance(r, Opt):
             r = r.val if spec else self.need_not_none(r, st, node)
+        if isinstance(op, ast.Add):
+            # sequence values with their own notion of concatenation (contract modules may register one)
+            for o_ in (l, r):
+                h_ = self.world.handlers.get((o_.cls, "__concat__")) if isinstance(o_, ObjV) else None
+                if h_ is not None:
+                    return h_(self, st, l, r, node)
         if isinstance(l, CArr) and isinstance(op, (ast.Add, ast.Sub)):
             k = zint(r)
             return CArr(l.arr, l.n, l.off + (k if isinstance(op, ast.Add) else -k), l.name)
